@@ -49,7 +49,7 @@ fn integers(len: usize, neg: bool) {
         _ => assert!(false, "an integer that fits is not turned into a float"),
     }
 }
-//@ props: C02
+//@ props: UNREACHED-C02
 //@ timeout: 1800
 //@ harness: c02_int_short, c02_int_19, c02_int_20, c02_negint_19
 //@ desc: integer literals with arbitrary digits: 1..=4 digits (both signs), 19 and 20 digits unsigned up to u64::MAX, 19 digits negative down to -9223372036854775808: accepted and kept exact as UInt64 (non-negative) or Int64 (negative), including the boundaries 2^63-1, 2^63, 2^64-1 and -2^63
@@ -151,7 +151,7 @@ fn escapes(class: usize) {
     }
     kani::cover!(hi(a) && lo(b) && b == 0xDFFF, "pair ending in \\uDFFF");
 }
-//@ props: C02
+//@ props: UNREACHED-C02
 //@ timeout: 1800
 //@ harness: c02_escape_pair_hi, c02_escape_pair_lo, c02_escape_pair_bmp
 //@ desc: `"\\uXXXX\\uYYYY"` with all eight hex digits arbitrary (upper and lower case), partitioned by the class of the first escape (high surrogate / low surrogate / other): surrogate pairs (all 1024x1024, up to \\uDBFF\\uDFFF) decode to the astral character, other code points to their UTF-8, unpaired surrogate escapes are kept as the literal text \\uXXXX
@@ -188,7 +188,7 @@ fn separator(which: usize) {
     kani::cover!(!expect_ok, "rejected");
     core::mem::forget(r);
 }
-//@ props: C02
+//@ props: UNREACHED-C02
 //@ timeout: 1800
 //@ harness: c02_separator_0, c02_separator_1, c02_separator_2
 //@ desc: `[1,<c>2]`, `[1<c>,2]` and `<c>[1,2]` with <c> ranging over all 256 byte values: accepted exactly when <c> is one of the five insignificant-whitespace bytes (space, tab, LF, CR, form feed) or legitimately extends the neighbouring number; every other byte (vertical tab 0x0B, other control bytes, letters, non-ASCII) is rejected with an error
@@ -199,7 +199,7 @@ harness!(c02_separator_0, 12, separator(0));
 harness!(c02_separator_1, 12, separator(1));
 harness!(c02_separator_2, 12, separator(2));
 
-//@ props: C02
+//@ props: UNREACHED-C02
 //@ timeout: 1800
 //@ harness: c02_total_3
 //@ desc: parse_value on every byte string of length 0..=3: a value or an error, never a panic
@@ -221,7 +221,7 @@ harness!(c02_total_3, 8, {
     }
 });
 
-//@ props: C02
+//@ props: UNREACHED-C02
 //@ timeout: 300
 //@ expect: twin
 //@ desc: vacuity twin: every 2-digit integer claimed to be rejected — must be refuted
